@@ -289,4 +289,98 @@ theorem updateW_sound (u : UpdateW) (c : Ident) (t : Term) (as : Assigns) (hops 
     rw [updateStmt_qualified L fuel _ h1 h2 h3, h4] at hs
     exact updateTailW_sound L fuel _ _ u.setKw c t as u.rels u.tail hkw hwf hA.2.2.2.2 hf4 hs
 
+/-! ### `DELETE FROM … WHERE …` -/
+
+theorem whereAndIf_sound (L : Lexer) (fuel : Nat) (s : LS) (p : Nat) (rels : List Rel) (tail : List Tok)
+    (hwf : ∀ r ∈ rels, r.wf) (hA : At L p (renderRels rels tail)) (hs : s.p = p)
+    (hi : (whereAndIf L fuel s tkWhere).1.idem = true) : relsNonIdem rels = false := by
+  simp only [whereAndIf, ↓reduceIte, parseWhereClause] at hi
+  cases rels with
+  | nil => rfl
+  | cons r0 rs =>
+    obtain ⟨tl0, htl0⟩ : ∃ tl, renderRels (r0 :: rs) tail = idt r0.col :: tl := by
+      cases rs with
+      | nil => exact rel_head r0 tail
+      | cons r3 m => exact rel_head r0 _
+    have hA2 := hA
+    rw [htl0] at hA2
+    have h3 : (nextT L s).1 = tkIdentifier := nextT_fst hA2 hs
+    have hf3 := nextT_fed hA2 hs
+    simp only [h3] at hi
+    have key2 := rels_sound L tail rs (fun r hr => hwf r (List.mem_cons_of_mem _ hr)) r0 fuel (nextT L s).2 _ (hwf r0 (List.mem_cons_self ..)) hA hf3
+    generalize parseWhereLoop L fuel (nextT L s).2 tkIdentifier = o4 at key2 hi
+    obtain ⟨r4, t4, s4⟩ := o4
+    simp only at key2 hi
+    by_cases hr4 : r4.idem = true
+    · exact key2 hr4
+    · simp [hr4] at hi
+
+theorem classify_delete (L : Lexer) (fuel : Nat) (h : (nextT L { p := 0 }).1 = tkDelete) (hi : (classify L fuel).idem = true) :
+    (deleteStmt L fuel (nextT L { p := 0 }).2).1.idem = true := by
+  unfold classify at hi
+  simp only [h, dispatch, tkInsert, tkUpdate, tkDelete, tkSelect, tkUse, tkCreate, tkAlter, tkDrop, tkBegin] at hi
+  simp at hi
+  exact hi.1
+
+/-- `deleteStmt` for a delete without selectors, once the table name is read -/
+theorem deleteStmt_from (L : Lexer) (fuel : Nat) (s : LS) (h1 : (nextT L s).1 = tkFrom) (h2 : (nextT L (nextT L s).2).1 = tkIdentifier)
+    (hi : (deleteStmt L fuel s).1.idem = true) :
+    deleteStmt L fuel s =
+      (let o := parseQualifiedIdentifier L (nextT L (nextT L s).2).2
+       if o.2.2.2.1 then (R.bad, tkInvalid, o.2.2.2.2)
+       else
+         let u := parseUsingClause L o.2.2.2.2 o.2.2.1
+         if u.2.1 then (R.bad, tkInvalid, u.2.2) else whereAndIf L fuel u.2.2 u.1) := by
+  cases fuel with
+  | zero =>
+    unfold deleteStmt at hi
+    generalize nextT L s = o1 at h1 hi
+    obtain ⟨t1, s1⟩ := o1
+    simp [deleteOpsLoop, R.fuel] at hi
+  | succ n =>
+    unfold deleteStmt
+    generalize nextT L s = o1 at h1 h2 ⊢
+    obtain ⟨t1, s1⟩ := o1
+    simp only at h1 h2 ⊢
+    subst h1
+    simp only [deleteOpsLoop, ne_eq, not_true_eq_false, false_and, ↓reduceIte, Bool.not_true, Bool.false_eq_true]
+    generalize nextT L s1 = o2 at h2 ⊢
+    obtain ⟨t2, s2⟩ := o2
+    simp only at h2 ⊢
+    subst h2
+    simp only [ne_eq, not_true_eq_false, ↓reduceIte]
+
+theorem deleteW_sound (d : DeleteW) (hwf : ∀ r ∈ d.rels, r.wf) (L : Lexer) (fuel : Nat)
+    (hA : At L 0 d.render) (hi : (classify L fuel).idem = true) : relsNonIdem d.rels = false := by
+  have h0 := nextT_fst (s := { p := 0 }) hA rfl
+  have hp0 := nextT_p (s := { p := 0 }) hA rfl
+  have hs := classify_delete L fuel h0 hi
+  have h1 := nextT_fst hA.2 hp0
+  have hp1 := nextT_p hA.2 hp0
+  cases hks : d.ks with
+  | none =>
+    simp only [DeleteW.render, hks, renderName] at hA
+    have h2 := nextT_fst hA.2.2 hp1
+    have hp2 := nextT_p hA.2.2 hp1
+    have h3 := nextT_fst hA.2.2.2 hp2
+    have hp3 := nextT_p hA.2.2.2 hp2
+    rw [deleteStmt_from L fuel _ h1 h2 hs] at hs
+    rw [pqi_nodot L _ (by rw [h3]; exact (by decide : tkWhere ≠ tkDot))] at hs
+    simp only [Bool.false_eq_true, ↓reduceIte, h3, parseUsingClause, show tkWhere ≠ tkUsing by decide, k] at hs
+    exact whereAndIf_sound L fuel _ _ d.rels d.tail hwf hA.2.2.2.2 hp3 hs
+  | some q =>
+    simp only [DeleteW.render, hks, renderName] at hA
+    have h2 := nextT_fst hA.2.2 hp1
+    have hp2 := nextT_p hA.2.2 hp1
+    have h3 := nextT_fst hA.2.2.2 hp2
+    have hp3 := nextT_p hA.2.2.2 hp2
+    have h4 := nextT_fst hA.2.2.2.2 hp3
+    have hp4 := nextT_p hA.2.2.2.2 hp3
+    have h5 := nextT_fst hA.2.2.2.2.2 hp4
+    have hp5 := nextT_p hA.2.2.2.2.2 hp4
+    rw [deleteStmt_from L fuel _ h1 h2 hs] at hs
+    rw [pqi_dot L _ h3 h4] at hs
+    simp only [Bool.false_eq_true, ↓reduceIte, h5, parseUsingClause, show tkWhere ≠ tkUsing by decide, k] at hs
+    exact whereAndIf_sound L fuel _ _ d.rels d.tail hwf hA.2.2.2.2.2.2 hp5 hs
+
 end CqlVerif.Ast
